@@ -385,6 +385,9 @@ def dict_update(it, d, other, kwargs=None):
         d.arr = z3.Lambda([k], z3.If(oarr[k] != pv.PAbsent, oarr[k], d.arr[k]))
     elif other is not None:
         items = concrete_items(it, other)
+        if items is None and isinstance(other, (SAny, VList, VSeqIter)):
+            # update by a list of pairs of symbolic length: dict(pairs) first (trusted view), then the dict case
+            return dict_update(it, d, make_dict(it, [other], {}), kwargs)
         if items is None:
             raise Unsupported('dict.update with a symbolic argument')
         for pair in items:
@@ -984,6 +987,10 @@ def str_method(it, s, name, args, kwargs, line=None):
                 parts.append(as_term_str(x))
             return SStr(z3.Concat(*parts)) if len(parts) > 1 else SStr(parts[0])
         it.ctx.note('str.split / str.join: trusted as uninterpreted py_split / py_join')
+        if isinstance(arg, (VDict, VKeys)) and arg.arr is not None:
+            return SStr(py_join(st, pv.members_facts(it.ctx, arg.arr, False)))
+        if isinstance(arg, VSet):
+            return SStr(py_join(st, pv.members_facts(it.ctx, arg.to_arr(), True)))
         return SStr(py_join(st, it.seq_term(arg, line)))
     if name == 'encode':
         return SAny(PV.PBytes(py_encode(st)))
@@ -1511,9 +1518,13 @@ def b_list(it, args, kwargs):
     if items is not None:
         return newlist(items)
     if isinstance(v, VDict):
-        return VKeys(v.arr)
+        r = VKeys(v.arr)
+        r.ctx = it.ctx
+        return r
     if isinstance(v, VKeys):
         return v
+    if isinstance(v, VSet):
+        return VList(seq=pv.members_facts(it.ctx, v.to_arr(), True))
     if isinstance(v, VSeqIter) or (isinstance(v, VList) and v.symbolic):
         return VList(seq=v.seq, elem=v.elem)
     return VList(seq=it.seq_term(v))
